@@ -84,10 +84,21 @@ pub fn check(case: &Case) -> Verdict {
     let same_unit = case.ua == case.ub;
     // ---- the results depend on the operands only
     let h = hist::mix(&[hist::mix_str(&case.a), hist::mix_str(&case.b), case.ty as u64, case.ua as u64, case.ub as u64]);
-    if h % 4 == 0 {
+    if h % 16 == 0 {
         let obs = || format!("+: {}, -: {}, /: {}", hist::show_q((t.add)(qa, qb)), hist::show_q((t.sub)(qa, qb)), catch(|| amt::key((t.div)(qa, qb))).unwrap_or_else(|_| "panic".into()));
         if let Some(m) = hist::independent(h, &obs) {
             fail!("{}: {}: {}", tname, case.note, m);
+        }
+    }
+    // ---- the trait-level functions (called by path, as generic code over
+    // `Q: HasRefUnit` does) are the same operations as the operators
+    if let Some(cmp) = &t.cmp {
+        let ops = catch(|| (hist::show_q((t.add)(qa, qb)), hist::show_q((t.sub)(qa, qb))));
+        let tr = catch(|| (hist::show_q((cmp.trait_add)(qa, qb)), hist::show_q((cmp.trait_sub)(qa, qb))));
+        let od = catch(|| amt::key((t.div)(qa, qb)));
+        let td = catch(|| amt::key((cmp.trait_div)(qa, qb)));
+        if ops.is_ok() != tr.is_ok() || (ops.is_ok() && ops != tr) || od.is_ok() != td.is_ok() || (od.is_ok() && od != td) {
+            fail!("{}: {}: HasRefUnit::add/sub/div called by path give {:?} / {:?} but the operators give {:?} / {:?}", tname, case.note, tr, td, ops, od);
         }
     }
     // ---- sum and difference
